@@ -233,6 +233,10 @@ def c08(tier, hook=None):
                     if generic and kind == "unit":
                         continue
                     guises.append((n, kind, entry, generic, None))
+    # field-less structs written `struct T {}` / `struct T();`
+    for kind in ("tuple", "named"):
+        for entry in ("attr", "derive"):
+            guises.append((0, kind, entry, False, None))
     # more than ten fields: positions "10", "11" sort before "2" as text
     for (n, kind) in ((12, "tuple"), (11, "named")):
         for entry in ("attr", "derive"):
@@ -658,7 +662,7 @@ def c10(tier, hook=None):
 # C11
 # ------------------------------------------------------------------------------------------------
 def default_descs(tier, rnd):
-    kinds = ["none", "str", "empty_str", "path", "assoc_path", "into_path", "qself_path", "turbofish_path", "call", "block", "method", "int", "neg", "bytes"]
+    kinds = ["none", "str", "empty_str", "path", "assoc_path", "into_path", "qself_path", "turbofish_path", "own_assoc_path", "call", "block", "method", "int", "neg", "bytes"]
     out = []
 
     def flds(n, choice=None):
